@@ -98,6 +98,9 @@ def run(ctx):
     ctx.do(rule_path_tree)
     ctx.do(rule_whole_selectors)
     ctx.do(rule_new_version)
+    # a marking operation changes markings only: on a dictionary, the versioning step adds no key of its own
+    from . import C05 as _C05
+    ctx.do(_C05.rule_option_key_only_for_objects, "C07.new-version")
     ctx.do(rule_every_function, rule_id="C07.validate-first")
     ctx.do(rule_set_is_clear_then_add)
     ctx.do(rule_normal_form)
@@ -110,6 +113,7 @@ def run(ctx):
     ctx.do(rule_single_use_iterators, "C07.iterator-pitfalls", ("stix2.markings",))
     ctx.do(rule_removal_is_a_filter)
     ctx.do(rule_markings_normalised)
+    ctx.do(rule_kind_options_separable)
     # whether a selector addresses something is decided by the walk of the object: the same walk rules as C08
     from . import C08
     ctx.do(C08.rule_truthiness, rule_id="C07.validate-first")
@@ -523,3 +527,109 @@ def rule_normal_form(ctx):
         run.check(not stores, R, key(fi.module.relpath, fi.qualname, "builds-new-list"),
                   "the normal-form helper edits its argument in place", file=fi.module.relpath, line=fi.node.lineno,
                   function=fi.qualname, expected="no store through the parameter", found=[short(s) for s in stores])
+
+
+def rule_kind_options_separable(ctx, R="C07.query-siblings"):
+    """The options `marking_ref` and `lang` of the granular functions each govern ONE kind of marking: whether an entry's
+    marking reference is reported / cleared depends on `marking_ref` only, whether its language is depends on `lang` only.
+    Every boolean condition of those functions that mentions an option together with a value read from an entry
+    (<entry>.get('marking_ref') / ['lang'], directly or through a local) is evaluated over all truth assignments of its atoms:
+    where the entry has no value of a kind, the condition must not depend on that kind's option.  (`ref and marking_ref or
+    lang` -- a precedence slip -- makes lang=True clear marking references; `lng and marking_ref` pairs the wrong option.)"""
+    import itertools
+    run = ctx.run
+    prog = ctx.prog
+    n = 0
+    for fi in sorted((f for f in prog.functions.values() if f.module.name == GRANULAR), key=lambda f: f.id):
+        ps = fi.all_param_names()
+        if "marking_ref" not in ps or "lang" not in ps:
+            continue
+        # locals bound once to a value read from an entry
+        local_val = {}
+        for a_ in body_walk(fi.node):
+            if isinstance(a_, ast.Assign) and len(a_.targets) == 1 and isinstance(a_.targets[0], ast.Name):
+                local_val.setdefault(a_.targets[0].id, []).append(a_.value)
+
+        def kind_of(atom):
+            if isinstance(atom, ast.Name) and atom.id in ("marking_ref", "lang"):
+                return "opt:" + atom.id
+            exprs = [atom]
+            if isinstance(atom, ast.Name) and atom.id in local_val:
+                exprs = local_val[atom.id]
+            ks = set()
+            for e in exprs:
+                for x in ast.walk(e):
+                    if isinstance(x, ast.Constant) and x.value in ("marking_ref", "lang"):
+                        ks.add("val:" + x.value)
+            return ks.pop() if len(ks) == 1 else "free"
+
+        def atoms_of(e, out):
+            if isinstance(e, ast.BoolOp):
+                for v in e.values:
+                    atoms_of(v, out)
+            elif isinstance(e, ast.UnaryOp) and isinstance(e.op, ast.Not):
+                atoms_of(e.operand, out)
+            else:
+                out.setdefault(norm(e), e)
+
+        def ev(e, env):
+            if isinstance(e, ast.BoolOp):
+                vals = [ev(v, env) for v in e.values]
+                return all(vals) if isinstance(e.op, ast.And) else any(vals)
+            if isinstance(e, ast.UnaryOp) and isinstance(e.op, ast.Not):
+                return not ev(e.operand, env)
+            return env[norm(e)]
+        conds = []
+        for x in body_walk(fi.node):
+            if isinstance(x, (ast.If, ast.While, ast.IfExp)):
+                conds.append(x.test)
+            elif isinstance(x, ast.comprehension):
+                conds.extend(x.ifs)
+            elif isinstance(x, (ast.ListComp, ast.SetComp, ast.GeneratorExp, ast.DictComp)):
+                for g_ in x.generators:
+                    conds.extend(g_.ifs)
+        seen = set()
+        k_ = 0
+        for c in conds:
+            if id(c) in seen:
+                continue
+            seen.add(id(c))
+            at = {}
+            atoms_of(c, at)
+            kinds = {t: kind_of(e) for t, e in at.items()}
+            opts = {k for k in kinds.values() if k.startswith("opt:")}
+            vals = {k for k in kinds.values() if k.startswith("val:")}
+            if not opts or not vals:
+                continue
+            if len(at) > 10:
+                raise AnalysisError("%s: condition with %d atoms" % (fi.qualname, len(at)))
+            n += 1
+            k_ += 1
+            names = sorted(at)
+            bad = None
+            for kind in ("marking_ref", "lang"):
+                o = [t for t in names if kinds[t] == "opt:" + kind]
+                if not o:
+                    continue
+                v = [t for t in names if kinds[t] == "val:" + kind]
+                rest = [t for t in names if t not in o and t not in v]
+                for bits in itertools.product((False, True), repeat=len(rest)):
+                    env = dict(zip(rest, bits))
+                    env.update({t: False for t in v})
+                    res = set()
+                    for ob in (False, True):
+                        env.update({t: ob for t in o})
+                        res.add(ev(c, env))
+                    if len(res) > 1:
+                        bad = (kind, dict((t, b) for t, b in env.items() if t not in o))
+                        break
+                if bad:
+                    break
+            run.check(bad is None, R, key(fi.module.relpath, fi.qualname, "kind-options-separable#%d" % k_),
+                      "a condition lets the option `%s` decide about an entry that has no value of that kind: the option then "
+                      "governs markings of the OTHER kind (clearing / reporting only the language markings also takes the marking "
+                      "references, or the other way round)" % (bad[0] if bad else "?"), file=fi.module.relpath, line=c.lineno,
+                      function=fi.qualname, expected="each option only in conjunction with a value of its own kind",
+                      found="%s with %s" % (short(c, 100), bad[1] if bad else None))
+    if n < 4:
+        raise AnalysisError("fewer than 4 option/value conditions found in the granular marking functions (%d)" % n)
